@@ -174,7 +174,7 @@ class Ctx:
         cs = self.pc + ([extra] if extra is not None else [])
         r = self.solver.check(*cs)
         if r == z3.unknown:
-            raise Unsupported("solver returned unknown in feasibility check")
+            raise Unsupported("solver returned unknown in a feasibility check")
         return r == z3.sat
 
     def assume(self, c):
